@@ -23,89 +23,131 @@ Variable decode : list opc -> option (list op * list (nat * Z)).
 Variable crepr : const -> string.
 Variable std : string -> bool.
 
+Notation load_core := (Loader.load_core V unpickle decode crepr std).
 Notation load := (Loader.load V unpickle decode crepr std).
-Notation armed_load := (Loader.armed_load V unpickle decode crepr std).
 Notation analysed := (LoaderProofs.analysed decode crepr std).
 Notation refusal := (LoaderProofs.refusal decode crepr std).
 
-(* A checked load returns an object only when the parse and the analysis succeeded and the verdict
-   is at or below the threshold (in the documented ranking); the object, and every event of the
-   call, is what the stock unpickler produces for the re-serialised parse, which is the first
-   pickle's bytes as the parse saw them (C06) -- so this is also "equals the stock unpickler". *)
-Theorem C02_returns_only_if_accepted : forall s thr v,
-  wf thr -> r_out (load s thr) = Return v ->
-  exists p fs,
-    analysed s p fs /\
+(* In every theorem about [load_core], p1 is the result of the first `Pickled.load(file)` and is
+   universally quantified: ANY opcode list (or error) whatsoever -- positions, rows and data unrelated
+   to any stream content -- i.e. any stream, including one that answers each read differently while it
+   is being parsed.  rd = the times the caller's stream is accessed (also arbitrary). *)
+
+(* A checked load returns an object only when the first parse re-serialised to some bytes [data], the
+   RE-PARSE of data and its analysis succeeded and the verdict is at or below the threshold (in the
+   documented ranking); the object, and every event of the call, is what the stock unpickler produces
+   for exactly data; the analysed parse re-serialises to the first pickle of data (C06), which is all the
+   stock unpickler executes of it. *)
+Theorem C02_returns_only_if_accepted : forall p1 rd thr v,
+  wf thr -> r_out (load_core p1 rd thr) = Return v ->
+  exists data p2 fs,
+    data_of p1 data /\ analysed data p2 fs /\
     sev_le (verdict fs) thr = true /\ doc_rank (verdict fs) <= doc_rank thr /\
-    dumps (l_ops p) = Ok (analysed_bytes s p) /\
-    fst (unpickle (analysed_bytes s p)) = UVal v /\
-    r_events (load s thr) = snd (unpickle (analysed_bytes s p)) /\
-    r_loaded (load s thr) = Some (analysed_bytes s p).
+    dumps (l_ops p2) = Ok (firstn (l_end p2) data) /\ ends_in_stop (l_ops p2) (l_end p2) /\
+    fst (unpickle data) = UVal v /\
+    r_events (load_core p1 rd thr) = snd (unpickle data) /\
+    r_loaded (load_core p1 rd thr) = Some data.
 Proof. exact (returns_only_if_accepted V unpickle decode crepr std). Qed.
 
-(* Fail-closed.  Whatever the reason for refusing -- Pickled.load raised, an argument did not decode,
-   check_safety raised (an opcode the symbolic interpreter cannot execute, an unknown analysis), or
-   the verdict exceeds the threshold -- the call raises, the event trace is EMPTY and the stock
-   unpickler was never called. *)
-Theorem C02_fail_closed : forall s thr x,
-  refusal s thr x ->
-  r_out (load s thr) = Raise x /\ r_events (load s thr) = [] /\ r_loaded (load s thr) = None.
+(* Fail-closed.  Whatever the reason for refusing -- the first Pickled.load raised, its result does not
+   re-serialise, the re-parse of the bytes fails (an inconsistent first parse), an argument does not decode,
+   check_safety raised, or the verdict exceeds the threshold -- the call raises, the event trace is EMPTY
+   and the stock unpickler was never called. *)
+Theorem C02_fail_closed : forall p1 rd thr x,
+  refusal p1 thr x ->
+  r_out (load_core p1 rd thr) = Raise x /\ r_events (load_core p1 rd thr) = [] /\
+  r_loaded (load_core p1 rd thr) = None.
 Proof.
-  intros s thr x R.
-  exact (proj2 (refused_nothing_ran V unpickle decode crepr std s thr x R)).
+  intros p1 rd thr x R.
+  exact (proj2 (refused_nothing_ran V unpickle decode crepr std p1 rd thr x R)).
 Qed.
 
-(* the four reasons, spelled out (so that the hypothesis of the theorem above is visibly exhaustive
-   of "parse error / analysis error / severity above threshold") *)
-Theorem C02_fail_closed_cases : forall s thr,
-  (forall e, load_model (s_kind s) (s_at s T_PARSE) (s_off s) = LErr e -> refusal s thr (XParse e)) /\
-  (forall p, load_model (s_kind s) (s_at s T_PARSE) (s_off s) = LOk p -> decode (l_ops p) = None ->
-             refusal s thr (XParse LDecode)) /\
-  (forall p prog protos a,
-     load_model (s_kind s) (s_at s T_PARSE) (s_off s) = LOk p -> decode (l_ops p) = Some (prog, protos) ->
-     Loader.check crepr std prog protos = CErr a -> refusal s thr (XAnalysis a)) /\
-  (forall p fs, analysed s p fs -> sev_le (verdict fs) thr = false -> refusal s thr (XUnsafe (to_dict fs))).
+(* the reasons, spelled out: together with acceptance they are exhaustive (C02_accepted_or_refused) *)
+Theorem C02_fail_closed_cases : forall p1 thr,
+  (forall e, p1 = LErr e -> refusal p1 thr (XParse e)) /\
+  (forall ops1 e, p1 = LOk ops1 -> dumps ops1 = Err e -> refusal p1 thr (XDumps e)) /\
+  (forall data e, data_of p1 data -> parse_bytes data = LErr e -> refusal p1 thr (XParse e)) /\
+  (forall data p2, data_of p1 data -> parse_bytes data = LOk p2 -> decode (l_ops p2) = None ->
+                   refusal p1 thr (XParse LDecode)) /\
+  (forall data p2 prog protos a,
+     data_of p1 data -> parse_bytes data = LOk p2 -> decode (l_ops p2) = Some (prog, protos) ->
+     Loader.check crepr std prog protos = CErr a -> refusal p1 thr (XAnalysis a)) /\
+  (forall data p2 fs, data_of p1 data -> analysed data p2 fs -> sev_le (verdict fs) thr = false ->
+                      refusal p1 thr (XUnsafe (to_dict fs))).
 Proof.
-  intros s thr.
-  exact (conj (RParse decode crepr std s thr)
-        (conj (RDecode decode crepr std s thr)
-        (conj (RAnalysis decode crepr std s thr) (RUnsafe decode crepr std s thr)))).
+  intros p1 thr.
+  exact (conj (RParse decode crepr std p1 thr)
+        (conj (RDumps decode crepr std p1 thr)
+        (conj (RReparse decode crepr std p1 thr)
+        (conj (RDecode decode crepr std p1 thr)
+        (conj (RAnalysis decode crepr std p1 thr) (RUnsafe decode crepr std p1 thr)))))).
 Qed.
 
-(* ... the third reason in the documented ranking, and what the exception carries *)
-Theorem C02_unsafe_carries_verdict : forall s thr p fs,
-  wf thr -> analysed s p fs ->
+Theorem C02_accepted_or_refused : forall p1 rd thr,
+  (exists data p2 fs, data_of p1 data /\ analysed data p2 fs /\ sev_le (verdict fs) thr = true /\
+                      load_core p1 rd thr = finish V (unpickle data) data rd)
+  \/ (exists x, refusal p1 thr x /\ load_core p1 rd thr = refuse V x rd).
+Proof. exact (core_cases V unpickle decode crepr std). Qed.
+
+(* ... the last reason in the documented ranking, and what the exception carries *)
+Theorem C02_unsafe_carries_verdict : forall p1 rd thr data p2 fs,
+  wf thr -> data_of p1 data -> analysed data p2 fs ->
   (sev_le (verdict fs) thr = false <-> doc_rank thr < doc_rank (verdict fs)) /\
   (sev_le (verdict fs) thr = false ->
-     r_out (load s thr) = Raise (XUnsafe (to_dict fs)) /\
+     r_out (load_core p1 rd thr) = Raise (XUnsafe (to_dict fs)) /\
      rp_severity (to_dict fs) = sev_name (verdict fs) /\ rp_findings (to_dict fs) = fs /\
-     r_events (load s thr) = [] /\ r_loaded (load s thr) = None).
+     r_events (load_core p1 rd thr) = [] /\ r_loaded (load_core p1 rd thr) = None).
 Proof. exact (unsafe_carries_verdict V unpickle decode crepr std). Qed.
 
 (* ... and conversely: ANY event, or any call of the stock unpickler, implies the verdict was accepted
    (this covers the one non-returning case that is not a refusal: the stock unpickler itself raising
    on accepted bytes, exactly as it would without fickling) *)
-Theorem C02_effects_only_if_accepted : forall s thr,
-  r_events (load s thr) <> [] \/ r_loaded (load s thr) <> None ->
-  exists p fs, analysed s p fs /\ sev_le (verdict fs) thr = true /\
-               r_loaded (load s thr) = Some (analysed_bytes s p) /\
-               r_events (load s thr) = snd (unpickle (analysed_bytes s p)).
+Theorem C02_effects_only_if_accepted : forall p1 rd thr,
+  r_events (load_core p1 rd thr) <> [] \/ r_loaded (load_core p1 rd thr) <> None ->
+  exists data p2 fs, data_of p1 data /\ analysed data p2 fs /\ sev_le (verdict fs) thr = true /\
+                     r_loaded (load_core p1 rd thr) = Some data /\
+                     r_events (load_core p1 rd thr) = snd (unpickle data).
 Proof. exact (effects_only_if_accepted V unpickle decode crepr std). Qed.
 
-(* The bytes executed are the bytes analysed: the argument of the stock unpickler is dumps(parse),
-   equal (C06) to the first pickle's bytes in the content the stream had DURING THE PARSE; the whole
-   run is a function of that content only -- whatever the stream holds at any later time -- and the
-   caller's stream is never accessed after the parse. *)
-Theorem C02_bytes_executed_are_bytes_analysed : forall s thr,
+(* The bytes executed are the bytes analysed -- with NO hypothesis on the stream, stable or not.
+   For every result p1 of the first parse: if the stock unpickler was handed bs then bs = dumps p1, and
+   the program that was analysed is decode (parse_bytes bs) -- a parse of bs itself, accepted at thr --
+   whose re-serialisation is the first pickle of bs.  The whole run depends on p1 only through dumps p1
+   (not on positions, nor on anything the tokeniser decoded while reading the stream), and the caller's
+   stream is accessed exactly when the first parse accessed it. *)
+Theorem C02_bytes_executed_are_bytes_analysed : forall p1 rd thr,
+  (forall bs, r_loaded (load_core p1 rd thr) = Some bs ->
+     data_of p1 bs /\
+     exists p2 prog protos fs,
+       parse_bytes bs = LOk p2 /\ decode (l_ops p2) = Some (prog, protos) /\
+       Loader.check crepr std prog protos = COk fs /\ sev_le (verdict fs) thr = true /\
+       dumps (l_ops p2) = Ok (firstn (l_end p2) bs) /\ ends_in_stop (l_ops p2) (l_end p2) /\
+       0 < l_end p2 <= List.length bs) /\
+  (forall ops1 ops1', p1 = LOk ops1 -> dumps ops1 = dumps ops1' ->
+     load_core p1 rd thr = load_core (LOk ops1') rd thr) /\
+  r_reads (load_core p1 rd thr) = rd.
+Proof.
+  intros p1 rd thr.
+  exact (conj (executed_is_analysed V unpickle decode crepr std p1 rd thr)
+        (conj (fun ops1 ops1' E H =>
+                 eq_ind_r (fun q => load_core q rd thr = load_core (LOk ops1') rd thr)
+                          (core_depends_on_dumps_only V unpickle decode crepr std ops1 ops1' rd thr H) E)
+              (core_reads V unpickle decode crepr std p1 rd thr))).
+Qed.
+
+(* On a stream that is stable while the first parse reads it (content s_at s T_PARSE; ANYTHING at any later
+   time): the bytes unpickled are the first pickle of the parse-time content, the run is a function of
+   that content only, and the stream is never accessed after the parse. *)
+Theorem C02_later_content_irrelevant : forall s thr,
   (forall bs, r_loaded (load s thr) = Some bs ->
      exists p, load_model (s_kind s) (s_at s T_PARSE) (s_off s) = LOk p /\
-               dumps (l_ops p) = Ok bs /\ bs = analysed_bytes s p /\ ends_in_stop (l_ops p) (l_end p)) /\
+               bs = analysed_bytes s p /\ ends_in_stop (l_ops p) (l_end p)) /\
   (forall s', s_kind s = s_kind s' -> s_off s = s_off s' -> s_at s T_PARSE = s_at s' T_PARSE ->
      load s thr = load s' thr) /\
   (forall t, In t (r_reads (load s thr)) -> t = T_PARSE).
 Proof.
   intros s thr.
-  exact (conj (loaded_is_analysed V unpickle decode crepr std s thr)
+  exact (conj (loaded_is_first_pickle V unpickle decode crepr std s thr)
         (conj (fun s' => later_content_irrelevant V unpickle decode crepr std s s' thr)
               (reads_only_during_parse V unpickle decode crepr std s thr))).
 Qed.
@@ -119,22 +161,27 @@ Theorem C02_surroundings_never_executed : forall s thr pre b rest r bs,
 Proof. exact (surroundings_irrelevant V unpickle decode crepr std). Qed.
 
 (* The returned object (and the event trace) is the stock unpickler's on the bytes it was handed. *)
-Theorem C02_equals_stock : forall s thr v,
-  r_out (load s thr) = Return v ->
-  exists bs, r_loaded (load s thr) = Some bs /\ unpickle bs = (UVal v, r_events (load s thr)).
+Theorem C02_equals_stock : forall p1 rd thr v,
+  r_out (load_core p1 rd thr) = Return v ->
+  exists bs, r_loaded (load_core p1 rd thr) = Some bs /\ unpickle bs = (UVal v, r_events (load_core p1 rd thr)).
 Proof. exact (equals_stock V unpickle decode crepr std). Qed.
 
 (* All three armings are the same function: after ANY hook history in which the ML environment is not
    active, pickle.load under always_check_safety() and inside the context manager -- whatever
-   threshold the context manager was given -- is load at LIKELY_SAFE, which is at or below every
-   threshold; fickling.load(file, thr) is load at thr. *)
-Theorem C02_armed_equiv : forall h a s,
+   threshold the context manager was given -- is the checked loader at LIKELY_SAFE, which is at or below
+   every threshold; fickling.load(file, thr) is the checked loader at thr.  (For any first parse p1 and
+   whatever the unhooked pickle.load would have done.) *)
+Theorem C02_armed_equiv : forall h a p1 rd stock,
   g_ml (grun g_init h) = None ->
-  armed_load h a s = Some (load s (match a with ADirect thr => thr | _ => LIKELY_SAFE end)) /\
+  Loader.armed_core V unpickle decode crepr std h a p1 rd stock
+    = Some (load_core p1 rd (match a with ADirect thr => thr | _ => LIKELY_SAFE end)) /\
+  (forall s, Loader.armed_load V unpickle decode crepr std h a s
+    = Some (load s (match a with ADirect thr => thr | _ => LIKELY_SAFE end))) /\
   (forall t, wf t -> doc_rank LIKELY_SAFE <= doc_rank t).
 Proof.
-  intros h a s H.
-  exact (conj (armed_equiv V unpickle decode crepr std h a s H) likely_safe_lowest).
+  intros h a p1 rd stock H.
+  exact (conj (armed_equiv V (load_core p1 rd) stock h a H)
+        (conj (fun s => armed_equiv V (load s) (Loader.stock_load V unpickle s) h a H) likely_safe_lowest)).
 Qed.
 
 End C02.
@@ -147,7 +194,9 @@ Theorem C02_threshold_table :
 Proof. exact (conj (proj2 threshold_table) threshold_spec). Qed.
 
 (* ---------------- non-vacuity / witnesses ---------------- *)
-(* a world: the unpickler returns the bytes it is handed and logs one Resolve event *)
+(* a world: the unpickler returns the bytes it is handed and logs one Resolve event; the program an
+   opcode list decodes to is decided by the bytes it re-serialises to: K\x07. is an os.system call,
+   0. pops an empty stack, everything else is None *)
 Definition ex_unpickle (bs : list byte) : ures (list byte) * list event :=
   (UVal bs, [EvResolve "m" "n"]).
 Definition ex_benign : list op := [OConst CNone; OStop].
@@ -155,70 +204,118 @@ Definition ex_flagged : list op :=
   [OGlobal "os" "system"; OConst (CStr "id"); OTuple1; OReduce; OStop].
 Definition ex_crash : list op := [OGlobal "os" "system"; OConst (CStr "id"); OTuple1; OReduce; OPop; OPop; OStop].
 Definition ex_std (m : string) : bool := String.eqb m "os".
-Definition ex_load (prog : list op) :=
-  Loader.load (list byte) ex_unpickle (fun _ => Some (prog, [])) (fun _ => "'id'"%string) ex_std.
-Definition ex_reread (prog : list op) :=
-  Loader.load_reread (list byte) ex_unpickle (fun _ => Some (prog, [])) (fun _ => "'id'"%string) ex_std.
-
 Definition b_none : list byte := [x4e; x2e].          (* N.     *)
 Definition b_evil : list byte := [x4b; x07; x2e].     (* K\x07. *)
+Definition b_crash : list byte := [x30; x2e].         (* 0.     *)
+Fixpoint bytes_eqb (a b : list byte) : bool :=
+  match a, b with
+  | [], [] => true
+  | x :: r, y :: t => Byte.eqb x y && bytes_eqb r t
+  | _, _ => false
+  end.
+Definition ex_decode (ops : list opc) : option (list op * list (nat * Z)) :=
+  match dumps ops with
+  | Ok bs => if bytes_eqb bs b_evil then Some (ex_flagged, [])
+             else if bytes_eqb bs b_crash then Some (ex_crash, [])
+             else Some (ex_benign, [])
+  | Err _ => None
+  end.
+Definition ex_crepr (_ : const) : string := "'id'"%string.
+Definition ex_core := Loader.load_core (list byte) ex_unpickle ex_decode ex_crepr ex_std.
+Definition ex_load := Loader.load (list byte) ex_unpickle ex_decode ex_crepr ex_std.
+Definition ex_reread := Loader.load_reread (list byte) ex_unpickle ex_decode ex_crepr ex_std.
+Definition ex_prefix := Loader.load_prefix_core (list byte) ex_unpickle ex_crepr ex_std.
+
 (* a seekable stream at offset 2 whose content is swapped after the parse *)
-Definition s_swap : stream :=
-  mkStream KSeekable 2 (fun t => if Nat.eqb t T_PARSE then b_none ++ b_none ++ b_evil else b_none ++ b_evil).
+Definition s_swap (first : list byte) : stream :=
+  mkStream KSeekable 2 (fun t => if Nat.eqb t T_PARSE then b_none ++ first ++ b_evil else b_none ++ b_evil).
+(* an "opcode list" no parse of any stream content would give: one opcode carrying a whole pickle as data *)
+Definition blob_row : oprow := (0%N, ("?"%string, (0%Z, ("none"%string, (true, true))))).
+Definition p_blob (d : list byte) : lres (list opc) := LOk [mkOpc blob_row 7 (Some d)].
 
 (* accepted: the analysed bytes are executed although the stream now holds something else ... *)
 Example C02_nonvacuous_accept :
-  ex_load ex_benign s_swap LIKELY_SAFE = mkRun (Return b_none) [EvResolve "m" "n"] (Some b_none) [T_PARSE].
+  ex_load (s_swap b_none) LIKELY_SAFE = mkRun (Return b_none) [EvResolve "m" "n"] (Some b_none) [T_PARSE].
 Proof. vm_compute. reflexivity. Qed.
 
 (* ... whereas re-reading the stream for the real load (the design loader.py warns against) executes
    bytes that were never analysed *)
 Example C02_reread_contrast :
-  r_loaded (ex_reread ex_benign s_swap LIKELY_SAFE) = Some b_evil /\
-  r_reads (ex_reread ex_benign s_swap LIKELY_SAFE) = [T_PARSE; T_LOAD].
+  r_loaded (ex_reread (s_swap b_none) LIKELY_SAFE) = Some b_evil /\
+  r_reads (ex_reread (s_swap b_none) LIKELY_SAFE) = [T_PARSE; T_LOAD].
 Proof. vm_compute. split; reflexivity. Qed.
 
 (* refused at every threshold below the verdict, accepted from the verdict on *)
 Example C02_nonvacuous_threshold :
-  exists r, ex_load ex_flagged s_swap LIKELY_SAFE = mkRun (Raise (XUnsafe r)) [] None [T_PARSE] /\
+  exists r, ex_load (s_swap b_evil) LIKELY_SAFE = mkRun (Raise (XUnsafe r)) [] None [T_PARSE] /\
             rp_severity r = "LIKELY_OVERTLY_MALICIOUS"%string /\
-            map (fun t => match r_out (ex_load ex_flagged s_swap t) with Return _ => true | Raise _ => false end)
+            map (fun t => match r_out (ex_load (s_swap b_evil) t) with Return _ => true | Raise _ => false end)
                 all_thresholds = [false; false; false; false; true; true].
 Proof. eexists. split; [vm_compute; reflexivity|]. split; vm_compute; reflexivity. Qed.
 
 (* analysis fails AFTER the program called os.system: refused, nothing ran *)
 Example C02_nonvacuous_analysis_error :
-  ex_load ex_crash s_swap 5 = mkRun (Raise (XAnalysis (AInterp EIndex))) [] None [T_PARSE].
+  ex_load (s_swap b_crash) 5 = mkRun (Raise (XAnalysis (AInterp EIndex))) [] None [T_PARSE].
 Proof. vm_compute. reflexivity. Qed.
 
 Example C02_nonvacuous_parse_error :
-  ex_load ex_benign (mkStream KBytes 0 (fun _ => [xff])) 5 = mkRun (Raise (XParse LEmpty)) [] None [] /\
-  ex_load ex_benign (mkStream KNonSeekable 0 (fun _ => [x46; x31; x0a; x2e])) 5
+  ex_load (mkStream KBytes 0 (fun _ => [xff])) 5 = mkRun (Raise (XParse LEmpty)) [] None [] /\
+  ex_load (mkStream KNonSeekable 0 (fun _ => [x46; x31; x0a; x2e])) 5
     = mkRun (Raise (XParse LNotImpl)) [] None [T_PARSE].
 Proof. vm_compute. split; reflexivity. Qed.
+
+(* THE DEFECT THAT WAS REPAIRED (within-parse time of check / time of use).  A first parse whose decoded
+   arguments (what the tokeniser read: the benign program) and data (what fickling re-read: K\x07.)
+   disagree.  The earlier loader analyses the former and unpickles the latter -- it RETURNS at
+   LIKELY_SAFE having executed bytes whose own verdict is LIKELY_OVERTLY_MALICIOUS ... *)
+Example C02_prefix_loader_refuted :
+  exists p1 args1 bs r,
+    ex_prefix p1 args1 [T_PARSE] LIKELY_SAFE = mkRun (Return bs) [EvResolve "m" "n"] (Some bs) [T_PARSE] /\
+    (* ... while the repaired loader, on the very same first parse, refuses: *)
+    ex_core p1 [T_PARSE] LIKELY_SAFE = mkRun (Raise (XUnsafe r)) [] None [T_PARSE] /\
+    rp_severity r = "LIKELY_OVERTLY_MALICIOUS"%string.
+Proof.
+  exists (p_blob b_evil), (Some (ex_benign, [])), b_evil. eexists.
+  split; [vm_compute; reflexivity|]. split; vm_compute; reflexivity.
+Qed.
+
+(* inconsistent first parses are non-returning cases: data that does not re-parse; an opcode without
+   data that cannot be re-encoded *)
+Example C02_nonvacuous_inconsistent_first_parse :
+  ex_core (p_blob [x4b]) [T_PARSE] 5 = mkRun (Raise (XParse LEmpty)) [] None [T_PARSE] /\
+  ex_core (LOk [mkOpc (75%N, ("BININT1"%string, (1%Z, ("read_uint1"%string, (true, true))))) 0 None]) [] 5
+    = mkRun (Raise (XDumps EUnmodelled)) [] None [] /\
+  (* and a consistent arbitrary one is accepted with exactly its bytes *)
+  ex_core (p_blob (b_none ++ b_evil)) [] 0 = mkRun (Return (b_none ++ b_evil)) [EvResolve "m" "n"]
+                                                   (Some (b_none ++ b_evil)) [].
+Proof. vm_compute. repeat split. Qed.
 
 (* the hypotheses of C02_surroundings_never_executed are met: b_none is a complete pickle *)
 Example C02_nonvacuous_surroundings :
   exists r, load_model KSeekable b_none 0 = LOk r /\ l_end r = List.length b_none /\
-            s_at s_swap T_PARSE = b_none ++ b_none ++ b_evil /\ s_off s_swap = List.length b_none.
+            s_at (s_swap b_none) T_PARSE = b_none ++ b_none ++ b_evil /\
+            s_off (s_swap b_none) = List.length b_none.
 Proof. eexists. split; [vm_compute; reflexivity|]. vm_compute. repeat split. Qed.
 
 (* the hypothesis of C02_armed_equiv is met by non-trivial histories *)
 Example C02_nonvacuous_history :
   let h := [HEnter; HProbe PLoad (mkP true []); HLeave; HActivate []; HRemove; HArm] in
   g_ml (grun g_init h) = None /\
-  Loader.armed_load (list byte) ex_unpickle (fun _ => Some (ex_flagged, [])) (fun _ => "'id'"%string) ex_std
-    h (AContext 5) s_swap = Some (ex_load ex_flagged s_swap LIKELY_SAFE) /\
+  Loader.armed_load (list byte) ex_unpickle ex_decode ex_crepr ex_std h (AContext 5) (s_swap b_evil)
+    = Some (ex_load (s_swap b_evil) LIKELY_SAFE) /\
   wf 5 /\ wf LIKELY_SAFE.
 Proof. vm_compute. repeat split; repeat constructor. Qed.
 
 Print Assumptions C02_returns_only_if_accepted.
 Print Assumptions C02_fail_closed.
 Print Assumptions C02_fail_closed_cases.
+Print Assumptions C02_accepted_or_refused.
 Print Assumptions C02_unsafe_carries_verdict.
 Print Assumptions C02_effects_only_if_accepted.
 Print Assumptions C02_bytes_executed_are_bytes_analysed.
+Print Assumptions C02_later_content_irrelevant.
 Print Assumptions C02_surroundings_never_executed.
 Print Assumptions C02_equals_stock.
 Print Assumptions C02_armed_equiv.
 Print Assumptions C02_threshold_table.
+Print Assumptions C02_prefix_loader_refuted.
